@@ -22,9 +22,9 @@ EXHAUSTIVE = "54 x 54 description pairs x 4 eventgroup sets x 3 eventgroup ids =
 
 WI, WM, WN = 0xFFFF, 0xFF, 0xFFFFFFFF
 SV = [0x1111, 0x2222]
-IN = [1, 2, WI]
+IN = [0x0101, 0x0202, WI]      # above CPython's small-int cache: equal values are then distinct objects (see _fresh)
 MA = [1, 2, WM]
-MI = [1, 2, WN]
+MI = [0x10001, 0x20002, WN]
 EGSETS = [[], [1], [2], [1, 2]]
 EGIDS = [1, 2, 3]
 DESCS = [(s, i, m, n) for s in SV for i in IN for m in MA for n in MI]
@@ -108,8 +108,13 @@ def _wild_variants(d):
     return out
 
 
+def _fresh(v):
+    """a new int object with the same value: ids parsed from the wire are equal to configured ones, never identical"""
+    return [int(str(x)) for x in v]
+
+
 def run_case(case):
-    a, b, egs, eg, counter = case["a"], case["b"], case["egs"], case["eg"], case["counter"]
+    a, b, egs, eg, counter = _fresh(case["a"]), _fresh(case["b"]), _fresh(case["egs"]), int(str(case["eg"])), case["counter"]
     T = hdr.SOMEIPSDEntryType
     sa, sb = _svc(a, egs, case["opts"]), _svc(b)
     offer_b, find_b = _entry(T.OfferService, b), _entry(T.FindService, b)
